@@ -584,6 +584,12 @@ pub fn build(full_name: &str, level: u8) -> Option<Scenario> {
                 }
             }
             let req = n.contains("-req");
+            if n.contains("-async") {
+                // the lagging follower persists asynchronously
+                let k = s.nodes.len().min(3) - 1;
+                s.nodes[k].mode = AppMode::Async;
+                s.nodes[k].loose_async = n.contains("-loose");
+            }
             s.fault_types = vec![raft::eraftpb::MessageType::MsgSnapshot as u8, raft::eraftpb::MessageType::MsgAppendResponse as u8];
             let (compacts, props, dups, drops, reorders, snapfail, reqsnaps, cuts, to, beats, mi) = match l {
                 0 => (0, 0, 0, 0, 0, 1, 0, 0, 0, 1, 6),
